@@ -866,7 +866,7 @@ ops::Plan generate(Context &gc, uint64_t run_seed, uint64_t index) {
 			if (b.rng.chance(1, 2)) add_preempt_shots(b, 2);
 		} else { ho.env = true; ho.checks = false; history(b, ho); attach_late_faults(b, true, false); }
 	}
-	else if (P == "C15") { ho.faults = true; ho.checks = false; history(b, ho); attach_late_faults(b, false, true); }
+	else if (P == "C15") { ho.faults = true; ho.checks = false; history(b, ho); } // (faults in the creating calls only: that is what C15 is about)
 	else if (P == "C16") { ho.secure_only = true; ho.faults = true; ho.checks = false; ho.audit_every = thorough ? 1 : (int)b.rng.range(3, 8); history(b, ho); attach_late_faults(b, true, true); }
 	else if (P == "C14") { gen_c14(b, thorough); if (gc.mode == "preempt") add_preempt_shots(b, 3); }
 	else if (P == "C08") { if (gc.mode == "keysweep") gen_c08_keysweep(b); else gen_c08(b, thorough); if (gc.mode == "preempt") add_preempt_shots(b, 3); }
